@@ -176,33 +176,44 @@ def mk_slice(base, a, b):
     return App('Slice', base, a, b)
 
 
-def contains(t, sub):
-    """does `sub` occur as a sub-term of `t`?"""
+PARTIAL_APPS = ('Slice', 'SliceMut', 'len', 'index', 'first', 'narrow', 'try_into_array', 'try_into_int')
+
+
+def mentions(t, sub):
+    """does `sub` occur anywhere in `t` (also under partial uses such as Slice/len)?"""
+    return contains(t, sub, True)
+
+
+def contains(t, sub, partial=False):
+    """does `sub` occur in `t` as a whole value?  A value that is only sliced, indexed or measured
+    (`Slice(x,..)`, `len(x)`) does not count (DESIGN section 8, soundness direction)."""
     if t is None:
         return False
     if t == sub:
         return True
     k = t[0]
+    if k == 'app' and t[1] in PARTIAL_APPS and not partial:
+        return False
     if k in ('int', 'bytes', 'sym', 'unit', 'unk', 'zero'):
         return False
     if k in ('fld', 'as', 'discr'):
-        return contains(t[1], sub)
+        return contains(t[1], sub, partial)
     if k == 'app':
-        return any(contains(a, sub) for a in t[2])
+        return any(contains(a, sub, partial) for a in t[2])
     if k in ('cat', 'tuple', 'array', 'list', 'hasher'):
-        return any(contains(a, sub) for a in t[1])
+        return any(contains(a, sub, partial) for a in t[1])
     if k == 'adt':
-        return any(contains(v, sub) for _, v in t[3])
+        return any(contains(v, sub, partial) for _, v in t[3])
     if k == 'mac':
-        return contains(t[1], sub) or any(contains(a, sub) for a in t[2])
+        return contains(t[1], sub, partial) or any(contains(a, sub, partial) for a in t[2])
     if k == 'extract':
-        return contains(t[1], sub) or any(contains(a, sub) for a in t[2])
+        return contains(t[1], sub, partial) or any(contains(a, sub, partial) for a in t[2])
     if k == 'hkdf':
-        return contains(t[1], sub)
+        return contains(t[1], sub, partial)
     if k == 'closure':
-        return any(contains(a, sub) for a in t[2])
+        return any(contains(a, sub, partial) for a in t[2])
     if k in ('biter',):
-        return contains(t[1], sub)
+        return contains(t[1], sub, partial)
     return False
 
 
